@@ -43,13 +43,13 @@ theorem root_wfam (hN : s.size = 32 * N) (hv : s.viaFs = true) (hm : s.mirrors =
 
 theorem root_wops (hN : s.size = 32 * N) :
     WOps (RootInv fs0 s N) (fun o => .root (sliceAt s o)) (fun o => .root (sliceAt s o)) N
-      (fun o => s.beginOff + o) (fun o => s.size - o) (fun _ => False) := by
+      (fun o => s.beginOff + o) (fun o => s.size - o) (fun _ => False) (fun im im' => im' = im) := by
   have hD : ∀ d, RootInv fs0 s N d → DirSrc d (fun o => .root (sliceAt s o)) N (fun o => s.beginOff + o)
       (fun o => s.size - o) := fun d h => root_dirSrc s N hN d h.noFault h.inside
   refine ⟨hD, fun d h => by rw [dirFuel_geom h.geom]; exact h.fuel,
     fun d h d0 _ o t _ ht => ⟨d0, root_seekStart_run s o t (by rw [hN]; exact ht) d0, SameVol.refl d0⟩,
     fun d h o ho => (hD d h).seekCur d (SameVol.refl d) o ho, fun d h o ho => (hD d h).seekCur d (SameVol.refl d) o ho,
-    fun d h fs' hg o ho32 hpos ho => ?_, fun d h o ho => ⟨d, rfl, VolStep.of_sameVol (SameVol.refl d), h, id, fun _ _ _ => rfl⟩,
+    fun d h fs' hg o ho32 hpos ho => ?_, fun d h o ho => ⟨d, rfl, VolStep.of_sameVol (SameVol.refl d), h, id, fun _ _ _ => rfl, rfl⟩,
     fun _ _ _ _ h => h⟩
   have := (hD d h).absPos d (SameVol.refl d) o ho32 hpos ho
   rw [absPos_geom hg] at this
@@ -68,12 +68,13 @@ structure WView (d : Dev) (st : DirStream) where
   src : Nat → Nat
   room : Nat → Nat
   Extra : Nat → Prop
+  DropPost : Img → Img → Prop
   start : st = F 0
   io : InvOK Inv
   geo : SlotGeo N src
   w : WFam Inv F G N src room
   wg : WFam Inv G G N src room
-  ops : WOps Inv F G N src room Extra
+  ops : WOps Inv F G N src room Extra DropPost
   here : Inv d
 
 namespace WView
@@ -103,6 +104,7 @@ def WView.ofRoot (s : DiskSlice) (N : Nat) (hN : s.size = 32 * N) (hv : s.viaFs 
   src := fun o => s.beginOff + o
   room := fun o => s.size - o
   Extra := fun _ => False
+  DropPost := fun im im' => im' = im
   start := rfl
   io := rootInv_ok
   geo := root_slotGeo hN hB
@@ -122,6 +124,7 @@ def WView.ofChain (d : Dev) (c0 : Nat) (chain : List Nat) (C : ChainDir d (FileH
   src := chainSrc d.fs chain
   room := chainRoom d.fs chain
   Extra := fun _ => False
+  DropPost := fun im im' => im' = im
   start := rfl
   io := chainInv_ok
   geo := C.slotGeo
@@ -215,9 +218,9 @@ theorem writeEntry_sim (V : WView d st) (name : String) (raw : DirFileEntryData)
             (Lfn.numParts (Names.encodeUtf16 name.toList).length + 1)⟩), d') ∧
       VolStep d d' ∧ d'.fs.curDirty = true ∧ V.Inv d' ∧
       V.slots d'.img = DirSlots.writeEntry (V.slots d.img) (Names.encodeUtf16 name.toList) raw.serialize ∧
-      FrameOutE V.N V.src V.Extra d d' := by
-  obtain ⟨d', hr, hs, hd, hinv, hsl, hfr⟩ := V.w.writeEntry V.io V.geo V.wg V.ops name raw hval hdot hraw d V.here hfit
-  refine ⟨d', ?_, hs, hd, hinv, hsl, hfr⟩
+      FrameOutE V.N V.src V.Extra d d' ∧ MidImg V.N V.src V.DropPost d d' := by
+  obtain ⟨d', hr, hs, hd, hinv, hsl, hfr, hmid⟩ := V.w.writeEntry V.io V.geo V.wg V.ops name raw hval hdot hraw d V.here hfit
+  refine ⟨d', ?_, hs, hd, hinv, hsl, hfr, hmid⟩
   rw [congrArg (fun s => run (FatVerif.writeEntry s name raw) d) V.start, hr,
     writeEntry_result V.src raw hraw hlfn _ _ _ (by omega)]
   rfl
@@ -238,16 +241,16 @@ theorem create_write_sim (V : WView d st) (name : String) (a : List Nat) (attrs 
       VolStep d d' ∧ d'.fs.curDirty = true ∧ V.Inv d' ∧
       V.slots d'.img = DirSlots.writeEntry (V.slots d.img) (Names.encodeUtf16 name.toList)
         (DirAlias.sfnWith a (attrs :: sfnStamp d.fs d.clock first)) ∧
-      FrameOutE V.N V.src V.Extra d d' := by
+      FrameOutE V.N V.src V.Extra d d' ∧ MidImg V.N V.src V.DropPost d d' := by
   have hwf := sfnAt_wf d.fs d.clock a attrs first ha11 hab hattrs
   have hl : attrsIsLfn (sfnAt d.fs d.clock a attrs first).attrs = false := by
     have : (sfnAt d.fs d.clock a attrs first).attrs = attrs := by
       simp only [sfnAt, DirFileEntryData.setModified, DirFileEntryData.setAccessed, DirFileEntryData.setCreated,
         DirFileEntryData.setFirstCluster, DirFileEntryData.new]
     rw [this]; exact hlfn
-  obtain ⟨d', hr, hs, hd, hinv, hsl, hfr⟩ := V.writeEntry_sim name _ hval hdot hwf hl hfit
+  obtain ⟨d', hr, hs, hd, hinv, hsl, hfr, hmid⟩ := V.writeEntry_sim name _ hval hdot hwf hl hfit
   rw [sfnAt_serialize] at hr hsl
-  refine ⟨d', ?_, hs, hd, hinv, hsl, hfr⟩
+  refine ⟨d', ?_, hs, hd, hinv, hsl, hfr, hmid⟩
   show run (Prog.bind _ _) d = _
   simp only [run, run_createSfnEntry a attrs first d]
   exact hr
@@ -259,15 +262,15 @@ theorem deleteEntry_sim (V : WView d st) (le : LfnEntry)
     ∃ d', run (FatVerif.deleteEntry st (toDirEntryS V.src le)) d = (.ok (), d') ∧
       VolStep d d' ∧ d'.fs.curDirty = true ∧ V.Inv d' ∧
       V.slots d'.img = DirSlots.deleteRange (V.slots d.img) le.beginIdx le.endIdx ∧
-      FrameOutE V.N V.src V.Extra d d' := by
+      FrameOutE V.N V.src V.Extra d d' ∧ MidImg V.N V.src V.DropPost d d' := by
   have hb := readLoop_bounds d.fs.lfnAlloc true (V.slots d.img) 0 0 _ (Nat.le_refl _) le hmem
   unfold WView.slots at hb
   rw [srcSlots_length, Nat.zero_add] at hb
   obtain ⟨k, hk⟩ : ∃ k, le.endIdx = le.beginIdx + k := ⟨le.endIdx - le.beginIdx, by omega⟩
-  obtain ⟨d', hr, hs, hd, hinv, hsl, hfr⟩ := V.w.deleteEntry V.io V.geo V.wg V.ops (toDirEntryS V.src le) le.beginIdx k
+  obtain ⟨d', hr, hs, hd, hinv, hsl, hfr, hmid⟩ := V.w.deleteEntry V.io V.geo V.wg V.ops (toDirEntryS V.src le) le.beginIdx k
     (by omega) rfl (by simp only [toDirEntryS]; rw [hk]) (by omega) d V.here
   refine ⟨d', (congrArg (fun s => run (FatVerif.deleteEntry s (toDirEntryS V.src le)) d) V.start).trans hr, hs, hd,
-    hinv, ?_, hfr⟩
+    hinv, ?_, hfr, hmid⟩
   unfold WView.slots
   rw [hsl, hk]
 
